@@ -461,6 +461,12 @@ func lookups(r *vh.Run, ck string, cfg *config.Config, m *conf.Model, text strin
 		r.Inc("lookup_skipped_dns_lookup_kdc_true")
 		return
 	}
+	cnt := map[string]int64{}
+	defer func() {
+		for k, v := range cnt {
+			r.Count(k, v)
+		}
+	}()
 	for _, rl := range m.Realms {
 		found := false
 		for _, o := range cfg.Realms {
@@ -489,15 +495,15 @@ func lookups(r *vh.Run, ck string, cfg *config.Config, m *conf.Model, text strin
 				break
 			}
 			if ok, vals := exactMap(n, mp, wantK); ok {
-				r.Inc("getkdcs_calls_exact")
+				cnt["getkdcs_calls_exact"]++
 				if len(wantK) > 1 && !eqS(vals, wantK) {
-					r.Inc("observe_getkdcs_order_differs_from_file_order")
+					cnt["observe_getkdcs_order_differs_from_file_order"]++
 				}
 				if len(wantK) == 0 {
 					if err != nil {
-						r.Inc("getkdcs_empty_realm_error")
+						cnt["getkdcs_empty_realm_error"]++
 					} else {
-						r.Inc("observe_getkdcs_empty_realm_no_error")
+						cnt["observe_getkdcs_empty_realm_no_error"]++
 					}
 				}
 			} else {
@@ -519,11 +525,11 @@ func lookups(r *vh.Run, ck string, cfg *config.Config, m *conf.Model, text strin
 			okP, vals := exactMap(n, mp, wantP)
 			if !okP && lenientP {
 				if okP, _ = exactMap(n, remap(mp, 464), wantP); okP {
-					r.Inc("observe_getkpasswd_returned_without_port")
+					cnt["observe_getkpasswd_returned_without_port"]++
 				}
 			}
 			if okP {
-				r.Inc("getkpasswd_calls_exact")
+				cnt["getkpasswd_calls_exact"]++
 				_ = vals
 			} else {
 				cls := conf.ListClass(rl.Kpasswd)
@@ -543,7 +549,7 @@ func lookups(r *vh.Run, ck string, cfg *config.Config, m *conf.Model, text strin
 			}
 		}
 		if !mutK && !mutP {
-			r.Inc("lookup_config_unchanged")
+			cnt["lookup_config_unchanged"]++
 		}
 	}
 }
@@ -675,6 +681,12 @@ func resolveHost(r *vh.Run, host string, labels []string) {
 		}
 		keys = append(keys, key{"." + rest, kind}, key{rest, "dotless-parent"})
 	}
+	cnt := map[string]int64{}
+	defer func() {
+		for k, v := range cnt {
+			r.Count(k, v)
+		}
+	}()
 	for mask := 0; mask < 1<<uint(len(keys)); mask++ {
 		ck := fmt.Sprintf("resolve/%s/%d", host, mask)
 		if !r.Mine(ck) {
@@ -706,7 +718,21 @@ func resolveHost(r *vh.Run, host string, labels []string) {
 		}
 		want := conf.Resolve(mp, host)
 		alt := conf.ResolveWithParents(mp, host)
-		cfg, err, p, pv, site := load(sb.String())
+		var cfg *config.Config
+		var err error
+		var p bool
+		var pv, site string
+		if len(labels) <= 4 || mask%8 == 0 {
+			cfg, err, p, pv, site = load(sb.String())
+			cnt["resolve_config_from_text"]++
+		} else {
+			// Config.DomainRealm is an exported map: fill it directly (saves 57 000 file parses)
+			cfg = config.New()
+			for k, v := range mp {
+				cfg.DomainRealm[k] = v
+			}
+			cnt["resolve_config_from_map"]++
+		}
 		if p || err != nil || cfg == nil || len(cfg.DomainRealm) != len(mp) {
 			r.Eval(ck, true)
 			if p {
@@ -726,11 +752,11 @@ func resolveHost(r *vh.Run, host string, labels []string) {
 			// the two readings of the documentation differ: a dot-less parent entry decides
 			switch got {
 			case want:
-				r.Inc("observe_dotless_parent_ignored")
+				cnt["observe_dotless_parent_ignored"]++
 			case alt:
-				r.Inc("observe_dotless_parent_matched")
+				cnt["observe_dotless_parent_matched"]++
 			default:
-				r.Inc("observe_dotless_parent_other")
+				cnt["observe_dotless_parent_other"]++
 			}
 			continue
 		}
@@ -740,8 +766,8 @@ func resolveHost(r *vh.Run, host string, labels []string) {
 				map[string]any{"case": ck, "host": host, "mappings": mp, "expected": want, "observed": got})
 			continue
 		}
-		r.Inc("resolve_equal")
-		r.Inc("resolve_equal_by_" + kindOf[want])
+		cnt["resolve_equal"]++
+		cnt["resolve_equal_by_"+kindOf[want]]++
 		if len(labels) == 3 && mask%37 == 5 {
 			r.SampleKind("resolve", 2, map[string]any{"case": ck, "host": host, "mappings": mp, "realm": got})
 		}
